@@ -19,7 +19,7 @@ META = {
         "quick": {"evaluations": 30000, "distinct_nontrivial": 5000, "tables": {"monitor/operand-snapshots": 15000, "monitor/inplace-vs-outofplace": 3000, "monitor/aliasing-probes": 3000, "monitor/quiescent-sweep": 1500, "kind/fermionic": 8000, "feature/mixed-dtype-operand": 300, "wide/fused-leg-charges>=17": 300}},
         "thorough": {"evaluations": 800000, "distinct_nontrivial": 80000},
     },
-    "wall": {"quick": 300, "thorough": 1700},
+    "wall": {"quick": 900, "thorough": 1700},
 }
 
 
